@@ -61,6 +61,7 @@ fn check_trace(s: &Stream, out: &RunOut, fault_at: Option<usize>) -> Result<(u64
     let mut reads = 0u64;
     let mut resp_seen = 0u64;
     let mut next_msg = 0usize;
+    let mut partial = 0usize;
     let mut proc_ret: Option<(bool, u32)> = None;
     // accounts for the bytes in `w` against the messages completed so far: the answers of a
     // message that fits must all be there; of a message whose answers do not all fit the N-byte
@@ -81,35 +82,51 @@ fn check_trace(s: &Stream, out: &RunOut, fault_at: Option<usize>) -> Result<(u64
             }
         }
     }
-    let settle = |w: &[u8], next_msg: &mut usize, delivered: usize, reads: u64, resp_seen: &mut u64| -> Result<(), (String, String)> {
+    // `partial`: how many answers of the message that is still arriving have already been sent
+    // (a message is executed unit by unit when a newline inside a payload splits it)
+    let settle = |w: &[u8], next_msg: &mut usize, partial: &mut usize, delivered: usize, reads: u64, resp_seen: &mut u64| -> Result<(), (String, String)> {
         let done = s.ends.iter().filter(|end| **end <= delivered).count();
         let mut items: Vec<(bool, &[u8])> = Vec::new();
         for m in *next_msg..done {
-            for r in &s.ref_resps[m] {
+            let skip = if m == *next_msg { *partial } else { 0 };
+            for r in s.ref_resps[m].iter().skip(skip) {
                 items.push((s.fits[m], &r[..]));
             }
         }
-        let mut budget = 200_000u32;
-        if !place(w, 0, &items, &mut budget) {
-            let owed: Vec<String> = items.iter().map(|(must, r)| format!("{}{}", if *must { "" } else { "(optional: its message overflows the buffer) " }, esc(r))).collect();
-            let must_total: usize = items.iter().filter(|i| i.0).map(|i| i.1.len()).sum();
-            let clause = if w.len() < must_total {
-                "read-before-due-response-was-written"
+        // answers of the message that has started to arrive but is not complete may already be there
+        let started = done < s.ends.len() && delivered > if done == 0 { 0 } else { s.ends[done - 1] };
+        let skip = if done == *next_msg { *partial } else { 0 };
+        let opt: Vec<&[u8]> = if started { s.ref_resps[done].iter().skip(skip).map(|r| &r[..]).collect() } else { vec![] };
+        // prefer the reading in which as few answers as possible were sent early
+        for k in 0..=opt.len() {
+            let mut all = items.clone();
+            for r in &opt[..k] {
+                // of a message whose answers do not fit N any answer may be missing
+                all.push((s.fits[done], *r));
             }
-            else if items.is_empty() {
-                "wrote-although-no-response-is-due"
+            let mut budget = 200_000u32;
+            if place(w, 0, &all, &mut budget) {
+                *resp_seen += items.iter().filter(|i| i.0).count() as u64;
+                *partial = if done == *next_msg { *partial + k } else { k };
+                *next_msg = done;
+                return Ok(());
             }
-            else {
-                "written-bytes-are-not-the-due-responses"
-            };
-            return Err((
-                clause.into(),
-                format!("before read #{}: the completed messages owe {:?}, the transport was given \"{}\" since the previous read", reads + 1, owed, esc(w)),
-            ));
         }
-        *resp_seen += items.iter().filter(|i| i.0).count() as u64;
-        *next_msg = done;
-        Ok(())
+        let owed: Vec<String> = items.iter().map(|(must, r)| format!("{}{}", if *must { "" } else { "(optional: its message overflows the buffer) " }, esc(r))).collect();
+        let must_total: usize = items.iter().filter(|i| i.0).map(|i| i.1.len()).sum();
+        let clause = if w.len() < must_total {
+            "read-before-due-response-was-written"
+        }
+        else if items.is_empty() && opt.is_empty() {
+            "wrote-although-no-response-is-due"
+        }
+        else {
+            "written-bytes-are-not-the-due-responses"
+        };
+        Err((
+            clause.into(),
+            format!("before read #{}: the completed messages owe {:?}, the transport was given \"{}\" since the previous read", reads + 1, owed, esc(w)),
+        ))
     };
     for (i, e) in out.log.iter().enumerate() {
         let is_transport = matches!(e, Ev::Read { .. } | Ev::AWrite(_) | Ev::AFlush | Ev::AErr { .. });
@@ -120,7 +137,7 @@ fn check_trace(s: &Stream, out: &RunOut, fault_at: Option<usize>) -> Result<(u64
         }
         match e {
             Ev::Read { n, .. } => {
-                settle(&w, &mut next_msg, delivered, reads, &mut resp_seen)?;
+                settle(&w, &mut next_msg, &mut partial, delivered, reads, &mut resp_seen)?;
                 if unflushed {
                     return Err(("read-before-flush".into(), format!("read #{} issued with written bytes not flushed", reads + 1)));
                 }
@@ -142,7 +159,7 @@ fn check_trace(s: &Stream, out: &RunOut, fault_at: Option<usize>) -> Result<(u64
                 }
                 if *kind == 0 {
                     // the failing call was a read: everything due must have been sent before it
-                    settle(&w, &mut next_msg, delivered, reads, &mut resp_seen)?;
+                    settle(&w, &mut next_msg, &mut partial, delivered, reads, &mut resp_seen)?;
                     if unflushed {
                         return Err(("read-before-flush".into(), "a read was issued with written bytes not flushed".into()));
                     }
@@ -219,7 +236,7 @@ fn shard(ctx: &Ctx, ifaces: &[&'static IfaceDesc], shard: usize, cases: u64) -> 
         let iface = *rng.pick(ifaces);
         let gen = Gen::new(
             iface,
-            GenOpts { lit: LitOpts { payload_newline: false, wild_payload: false, max_payload: 5 }, max_units: 3, trailing_semicolon_16: 1, ..Default::default() },
+            GenOpts { lit: LitOpts { payload_newline: rng.chance(1, 4), wild_payload: false, max_payload: 5 }, max_units: 3, trailing_semicolon_16: 1, ..Default::default() },
         );
         let mut s = make_stream(&gen, &mut rng, &mut acc);
         // N holds every message; an answer may or may not fit (then an error is reported instead)
@@ -456,7 +473,7 @@ pub fn run(ctx: &Ctx) -> PropResult {
     let described: Vec<J> = vec![J::s("stream \"A?;B:C?\\nA\\n\" byte-wise, error token 1007 injected at transport call 7 (a flush)")];
     res.samples.extend(described.into_iter().take(1));
     res.assumptions = vec![
-        "messages contain no newline inside a payload; of a message whose answers do not fit N any answer may be missing (an error is reported instead), but only complete answers may be written".into(),
+        "a quarter of the streams carry newlines inside string/block payloads (the message is then executed in pieces and its answers may be sent as they become available); of a message whose answers do not fit N any answer may be missing (an error is reported instead), but only complete answers may be written".into(),
         "the due responses are the bytes of a reference execution through run, decoded and matched against the generator-side expectation; the write segmentation is free".into(),
     ];
     if fp.get("read").copied().unwrap_or(0) == 0 || fp.get("write").copied().unwrap_or(0) == 0 || fp.get("flush").copied().unwrap_or(0) == 0 || resp == 0 {
